@@ -714,8 +714,12 @@ def r7(R):
             if not bsrc.startswith("self."):
                 continue          # a buffer made in this call has no history
             byfn.setdefault((id(fn), bsrc), [fn, bsrc, []])[2].append((name, call))
-        for fn, bsrc, calls in byfn.values():
-            q = m.qualname(fn)
+        for fn0, bsrc, calls0 in byfn.values():
+            q = m.qualname(fn0)
+            fn = m.ifunc(q)               # same-file helpers (an extracted 'allocate the outputs' method) read in place
+            calls = [(name, c) for name, c in pyfacts.kernel_calls(fn, names=set(LABEL_ARG))
+                     if len(c.args) > LABEL_ARG[name] and rootsrc(fn, c.args[LABEL_ARG[name]]) == bsrc]
+            R.shape(len(calls) >= 1, "C11.R7", rel, q, "the labelling-kernel call on %s with helpers read in place" % bsrc)
             cfg = pyfacts.PyCFG(fn)
             fills = set()
             for name, call in calls:
